@@ -1,17 +1,23 @@
 /-!
-# C03 — model of `RPCSession._throttled_request` (session.py:472-505) and of the way
-`process_messages` treats handler tasks (session.py:224-230)
+# C03 — model of `RPCSession._throttled_request` (session.py), of the way `process_messages`
+treats handler tasks, and of the K-slot schedule that decides *when* each request completes
 
-Decision function `throttled : Variant → Cfg → Outcome → Kind → Step`: what the serving side does
-with one request/notification whose handler behaved as `Outcome`.  It mirrors the code's
-`try/except` ladder, the `send_result` call, `_bump_errors` and the optional `close()` in the
-code's order.  `Variant.repaired` is the current tree (F9 repaired: `send_result` guarded);
-`Variant.pinned` lets the `ProtocolError` of an unencodable result escape.
-
-`serve` folds that over any number of in-flight items in any completion order, with the
-message-loop's liveness: a handler task that *raises* makes `task.result()` re-raise inside
-`process_messages`, which ends message processing (everything still in flight is cancelled and
-nothing later is answered).
+* `throttled : Variant → Cfg → Outcome → Kind → Step`: what the serving side does with one
+  request/notification whose handler behaved as `Outcome`.  It mirrors the code's `try/except`
+  ladder, the `send_result` call, `_bump_errors` and the optional `close()` in the code's order.
+  `Variant.repaired` is the current tree (F9 repaired: `send_result` guarded);
+  `Variant.pinned` lets the `ProtocolError` of an unencodable result escape.
+* `serve` folds that over any number of in-flight items in any completion order, with the
+  message loop's liveness (a handler task that *raises* makes `task.result()` re-raise inside
+  `process_messages`: nothing later is answered) and with the effect of a reply-and-disconnect
+  (once `close()` ran, the tasks still in flight are cancelled and nothing more is written:
+  later completions are cut off).  Members of a request batch are answered by one batch
+  response, emitted when `len(parts) == count`.
+* `schedule`: items arrive at their instants `arr`; `slots` of them run at once (FIFO
+  semaphore), each first sleeps `throttle` seconds (`_cost_fraction * cost_sleep`), then runs its
+  handler for `dur`; whatever has not finished `deadline` after its arrival (`processing_timeout`,
+  which covers the wait for a slot and the throttle sleep) overruns.  `runTimed` = `serve` over the resulting
+  completion order.
 
 No Mathlib imports.
 -/
@@ -37,19 +43,31 @@ inductive Payload where
   deriving Repr, DecidableEq
 
 inductive Outcome where
-  | returns (p : Payload)                          -- handler returned (values only make sense)
+  | returns (p : Payload)                          -- handler returned
   | raisesRpcError (code : Int) (msg : Nat) (cost : Nat)
   | raisesProtocolError (code : Int) (msg : Nat)
-  | raisesOther
-  | overruns                                        -- sleeps past processing_timeout
+  | raisesOther                                     -- any Exception no clause names
+  | overruns                                        -- not finished at the processing timeout
   | replyAndDisconnect (p : Payload)
   | excessiveCost                                   -- the limiter refused entry
+  /-- the handler itself raises `ExcessiveSessionCostError` (a RuntimeError): the clause meant
+  for the limiter catches it -/
+  | raisesExcessive
+  /-- the handler raises `TaskTimeout` itself (a BaseException, outside "arbitrary Exception"):
+  the clause meant for the processing timeout catches it -/
+  | raisesTaskTimeout
+  /-- the handler raises CancelledError / TimeoutCancellationError / another BaseException: no
+  clause catches it (outside "arbitrary Exception") -/
+  | raisesBase
+  /-- `raise ReplyAndDisconnect()` without an argument: `e.args[0]` raises IndexError inside the
+  except clause (outside "ReplyAndDisconnect(value or error)") -/
+  | replyAndDisconnectNoArg
   deriving Repr, DecidableEq
 
 inductive Kind where | request | notification
   deriving Repr, DecidableEq
 
-/-- message texts are abstract ids; these three are the library's own -/
+/-- message texts are abstract ids; these four are the library's own -/
 def msgBusy : Nat := 1000001
 def msgExcessive : Nat := 1000002
 def msgInternal : Nat := 1000003
@@ -69,15 +87,20 @@ structure Step where
   escapes : Bool := false    -- an exception leaves `_throttled_request`
   deriving Repr, DecidableEq
 
-/-- the `result` object after the try/except ladder, with the `disconnect` and hook flags -/
-def ladder (cfg : Cfg) : Outcome → Payload × Bool × Bool
-  | .returns p => (p, false, false)
-  | .raisesRpcError c m k => (.error c m k, false, false)
-  | .raisesProtocolError c m => (.error c m 0, false, false)
-  | .overruns => (.error cfg.serverBusy msgBusy 0, false, false)
-  | .replyAndDisconnect p => (p, true, false)
-  | .excessiveCost => (.error cfg.excessiveUsage msgExcessive 0, true, true)
-  | .raisesOther => (.error cfg.internalError msgInternal 0, false, false)
+/-- the `result` object after the try/except ladder, with the `disconnect` and hook flags;
+`none`: an exception leaves the function from inside the ladder -/
+def ladder (cfg : Cfg) : Outcome → Option (Payload × Bool × Bool)
+  | .returns p => some (p, false, false)
+  | .raisesRpcError c m k => some (.error c m k, false, false)
+  | .raisesProtocolError c m => some (.error c m 0, false, false)
+  | .overruns => some (.error cfg.serverBusy msgBusy 0, false, false)
+  | .raisesTaskTimeout => some (.error cfg.serverBusy msgBusy 0, false, false)
+  | .replyAndDisconnect p => some (p, true, false)
+  | .replyAndDisconnectNoArg => none
+  | .excessiveCost => some (.error cfg.excessiveUsage msgExcessive 0, true, true)
+  | .raisesExcessive => some (.error cfg.excessiveUsage msgExcessive 0, true, true)
+  | .raisesOther => some (.error cfg.internalError msgInternal 0, false, false)
+  | .raisesBase => none
 
 def isException : Payload → Bool
   | .error .. => true
@@ -93,62 +116,175 @@ def replyOf : Payload → Option Reply
   | .unencodable _ => none
 
 def throttled (v : Variant) (cfg : Cfg) (o : Outcome) (k : Kind) : Step :=
-  let (res, disconnect, hook) := ladder cfg o
-  match k with
-  | .notification =>
-    -- no send_result for notifications
-    { reply := none, errors := if isException res then 1 else 0, cost := errorCost cfg res,
-      close := disconnect, hook := hook }
-  | .request =>
-    match res with
-    | .unencodable _ =>
-      match v with
-      | .pinned =>
-        -- `request.send_result(result)` raises ProtocolError(INTERNAL_ERROR): nothing below runs
-        { escapes := true, hook := hook }
-      | .repaired =>
-        -- the ProtocolError becomes the result: one internal-error reply, counted as an error
-        let res' := Payload.error cfg.internalError msgEncoding 0
-        { reply := replyOf res', errors := 1, cost := errorCost cfg res', close := disconnect,
-          hook := hook }
-    | _ =>
-      { reply := replyOf res, errors := if isException res then 1 else 0,
-        cost := errorCost cfg res, close := disconnect, hook := hook }
+  match ladder cfg o with
+  | none => { escapes := true }
+  | some (res, disconnect, hook) =>
+    match k with
+    | .notification =>
+      -- no send_result for notifications
+      { reply := none, errors := if isException res then 1 else 0, cost := errorCost cfg res,
+        close := disconnect, hook := hook }
+    | .request =>
+      match res with
+      | .unencodable _ =>
+        match v with
+        | .pinned =>
+          -- `request.send_result(result)` raises ProtocolError(INTERNAL_ERROR): nothing below runs
+          { escapes := true, hook := hook }
+        | .repaired =>
+          -- the ProtocolError becomes the result: one internal-error reply, counted as an error
+          let res' := Payload.error cfg.internalError msgEncoding 0
+          { reply := replyOf res', errors := 1, cost := errorCost cfg res', close := disconnect,
+            hook := hook }
+      | _ =>
+        { reply := replyOf res, errors := if isException res then 1 else 0,
+          cost := errorCost cfg res, close := disconnect, hook := hook }
+
+/-- what the facts extractor observes when it runs the real session on one item: the reply in
+canonical form (is a result?, value id / error code, message id - 0 for the library's own
+texts), the bumps, whether the connection was closed, the hook, and whether the session stopped
+serving without closing (an exception left `_throttled_request`) -/
+structure Obs where
+  escaped : Bool
+  reply : Option (Bool × Int × Nat)
+  errors : Nat
+  cost : Nat
+  closed : Bool
+  hook : Bool
+  deriving Repr, DecidableEq
+
+def canonReply : Reply → Bool × Int × Nat
+  | .result n => (true, n, 0)
+  | .error c m => (false, c, if 1000000 ≤ m then 0 else m)
+
+def obsOf (st : Step) : Obs :=
+  { escaped := st.escapes, reply := st.reply.map canonReply, errors := st.errors, cost := st.cost,
+    closed := st.close, hook := st.hook }
 
 /-! ## Many items in flight -/
 
 structure Item where
   id : Nat
   kind : Kind
+  /-- member of the (one) request batch -/
+  batch : Bool := false
   outcome : Outcome
   deriving Repr, DecidableEq
 
 structure Served where
   /-- the message-processing task is still running -/
   alive : Bool := true
-  /-- replies written, in order: (item id, reply) -/
+  /-- `close()` ran: the connection is closing / closed -/
+  closed : Bool := false
+  /-- responses to single requests, in the order written: (item id, reply) -/
   replies : List (Nat × Reply) := []
+  /-- parts of the batch response collected so far -/
+  batchParts : List (Nat × Reply) := []
   errors : Nat := 0
   cost : Nat := 0
-  closeRequested : Bool := false
-  /-- items whose handler finished while message processing was dead: never answered -/
+  /-- calls of on_disconnect_due_to_excessive_session_cost -/
+  hooks : Nat := 0
+  /-- items whose handler finished (or would have) after message processing died or after the
+  connection was closed: never answered, never counted -/
   lost : List Nat := []
   deriving Repr, DecidableEq
 
+def replyList (st : Step) (it : Item) : List (Nat × Reply) :=
+  match st.reply with
+  | some r => [(it.id, r)]
+  | none => []
+
+/-- `send_result` (single: the response; batch member: one more part), `_bump_errors`, the hook
+and `close()` of one completed item -/
+def record (s : Served) (it : Item) (st : Step) : Served :=
+  { s with
+    replies := if it.batch then s.replies else s.replies ++ replyList st it,
+    batchParts := if it.batch then s.batchParts ++ replyList st it else s.batchParts,
+    errors := s.errors + st.errors, cost := s.cost + st.cost,
+    hooks := s.hooks + (if st.hook then 1 else 0), closed := st.close }
+
 def serveOne (v : Variant) (cfg : Cfg) (s : Served) (it : Item) : Served :=
-  if !s.alive then { s with lost := s.lost ++ [it.id] }
+  if !s.alive || s.closed then { s with lost := s.lost ++ [it.id] }
   else
     let st := throttled v cfg it.outcome it.kind
     if st.escapes then { s with alive := false, lost := s.lost ++ [it.id] }
-    else
-      { s with replies := match st.reply with
-                          | some r => s.replies ++ [(it.id, r)]
-                          | none => s.replies,
-               errors := s.errors + st.errors, cost := s.cost + st.cost,
-               closeRequested := s.closeRequested || st.close }
+    else record s it st
 
 /-- items complete in the order given (any permutation of the arrival order) -/
 def serve (v : Variant) (cfg : Cfg) (items : List Item) : Served :=
   items.foldl (serveOne v cfg) {}
+
+/-- `count` of `_receive_request_batch`: the request members of the batch -/
+def batchCount (items : List Item) : Nat :=
+  (items.filter fun it => it.batch && it.kind == .request).length
+
+/-- the batch response: written when `len(parts) == count` -/
+def batchResponse (items : List Item) (s : Served) : Option (List (Nat × Reply)) :=
+  if 0 < batchCount items ∧ s.batchParts.length = batchCount items then some s.batchParts else none
+
+/-! ## When items complete: K slots, throttle sleep, processing timeout -/
+
+structure Timing where
+  /-- `initial_concurrent`: handlers running at once -/
+  slots : Nat := 20
+  /-- `processing_timeout`, counted from arrival -/
+  deadline : Nat := 30
+  /-- `_cost_fraction * cost_sleep`: sleep between getting a slot and starting the handler -/
+  throttle : Nat := 0
+  deriving Repr, DecidableEq
+
+structure TItem where
+  item : Item
+  /-- running time of the handler before it behaves as `item.outcome` -/
+  dur : Nat
+  /-- instant of arrival (ascending along the list of arrivals) -/
+  arr : Nat := 0
+  deriving Repr, DecidableEq
+
+def insertSorted (x : Nat) : List Nat → List Nat
+  | [] => [x]
+  | y :: ys => if x ≤ y then x :: y :: ys else y :: insertSorted x ys
+
+def overrun (it : Item) : Item := { it with outcome := .overruns }
+
+/-- one arrival.  `free` = the instants at which the slots become free, ascending.  Returns the
+new slot list and the completion (instant, item with the outcome that takes effect).  The
+processing timeout runs from the arrival: it covers the wait for a slot and the throttle sleep. -/
+def arrive (tm : Timing) (free : List Nat) (ti : TItem) : List Nat × (Nat × Item) :=
+  match free with
+  | [] => (free, (ti.arr + tm.deadline, overrun ti.item))
+  | f :: rest =>
+    let a := max f ti.arr          -- the instant the request gets its slot
+    if ti.arr + tm.deadline ≤ a then
+      -- still queued on the semaphore when the timeout expires: takes no slot
+      (free, (ti.arr + tm.deadline, overrun ti.item))
+    else if ti.item.outcome = .excessiveCost then
+      -- refused on entering the limiter: the slot is handed back at once
+      (insertSorted a rest, (a, ti.item))
+    else if ti.item.outcome = .overruns ∨ ti.arr + tm.deadline ≤ a + tm.throttle + ti.dur then
+      (insertSorted (ti.arr + tm.deadline) rest, (ti.arr + tm.deadline, overrun ti.item))
+    else
+      (insertSorted (a + tm.throttle + ti.dur) rest, (a + tm.throttle + ti.dur, ti.item))
+
+/-- completions in arrival order -/
+def completions (tm : Timing) : List Nat → List TItem → List (Nat × Item)
+  | _, [] => []
+  | free, ti :: rest => (arrive tm free ti).2 :: completions tm (arrive tm free ti).1 rest
+
+/-- stable insertion by instant -/
+def insertEv (e : Nat × Item) : List (Nat × Item) → List (Nat × Item)
+  | [] => [e]
+  | x :: xs => if e.1 ≤ x.1 then e :: x :: xs else x :: insertEv e xs
+
+def sortEv : List (Nat × Item) → List (Nat × Item)
+  | [] => []
+  | e :: es => insertEv e (sortEv es)
+
+/-- the completion order: (instant, item) ascending in time, arrival order among equals -/
+def schedule (tm : Timing) (tis : List TItem) : List (Nat × Item) :=
+  sortEv (completions tm (List.replicate tm.slots 0) tis)
+
+def runTimed (v : Variant) (cfg : Cfg) (tm : Timing) (tis : List TItem) : Served :=
+  serve v cfg ((schedule tm tis).map (·.2))
 
 end Aiorpcx.C03
